@@ -428,10 +428,14 @@ class Connection(ExportImport):
             # as tpc_abort does.
             self._import = None
 
+        # (New objects first, as in tpc_abort: what a failed savepoint
+        # has just stored is still recorded here, and discarding the
+        # savepoint data invalidates everything it holds.)
+        self._invalidate_creating()
+
         if self._savepoint_storage is not None:
             self._abort_savepoint()
 
-        self._invalidate_creating()
         self._tpc_cleanup()
 
     def _abort(self):
